@@ -104,7 +104,10 @@ def piece_strategy(tier):
 
 def strat_targets(tier):
     return st.fixed_dictionaries({
-        "pieces": st.lists(piece_strategy(tier), min_size=1, max_size=5)})
+        "pieces": st.lists(piece_strategy(tier), min_size=1, max_size=5),
+        "container": st.sampled_from(["set", "set", "list", "tuple",
+                                      "frozenset", "reversed-list"]),
+        "dict": st.sampled_from(["dict", "ordered-reversed"])})
 
 
 def build_targets(case):
@@ -136,9 +139,16 @@ def build_targets(case):
 def check_targets(case):
     from rig.machine_control import regions
     targets = build_targets(case)
+    conv = {"set": set, "list": sorted, "tuple": lambda v: tuple(sorted(v)),
+            "frozenset": frozenset,
+            "reversed-list": lambda v: sorted(v, reverse=True)}[
+        case.get("container", "set")]
+    items = sorted(targets.items())
+    if case.get("dict") == "ordered-reversed":
+        items = items[::-1]
     with sut("compress_flood_fill_regions"):
         out = list(regions.compress_flood_fill_regions(
-            dict((k, set(v)) for k, v in targets.items())))
+            dict((k, conv(v)) for k, v in items)))
     got = {}
     levels = set()
     for pair in out:
